@@ -47,7 +47,10 @@ Inductive policy :=
 | PBadDate (n : Z)         (* Cache-Control: max-age=n, Date: garbage (the library returns an error) *)
 | PNoStoreMaxAge (n : Z)   (* Cache-Control: no-store, max-age=n *)
 | PMustRevalidate (n : Z)  (* Cache-Control: must-revalidate, max-age=n *)
-| PNoCacheMaxAge (n : Z).  (* Cache-Control: no-cache, max-age=n *)
+| PNoCacheMaxAge (n : Z)   (* Cache-Control: no-cache, max-age=n *)
+| PRaw (id : Z).           (* any other header set, known to the model only by a number: other letter
+                              case (No-Cache, NO-STORE, MAX-AGE=..), white space, quoted arguments,
+                              several Cache-Control lines; its text lives in the harness *)
 
 (* The answers of the library for a header set, as the loader uses them:
    cc_store    = (err == nil && len(reasons) == 0) of cachecontrol.CachableResponse
